@@ -3,6 +3,7 @@ package main
 import (
 	"fmt"
 	"go/ast"
+	"go/parser"
 	"go/types"
 	"strings"
 )
@@ -147,6 +148,25 @@ func (g *Gen) callExternal(e *Ev, fn *types.Func, recv *Term, args []Term, n *as
 		if len(pnames) != len(all) {
 			e.errorf(n, "extern %s: %d names for %d arguments", hdr, len(pnames), len(all))
 			break
+		}
+		// several extern blocks may describe instances of one generic function: match by types
+		mismatch := false
+		for k, p := range strings.Split(hdr[i+1:j], ",") {
+			f := strings.Fields(p)
+			if len(f) < 2 || all[k].T == nil {
+				continue
+			}
+			tx, err := parser.ParseExpr(strings.Join(f[1:], " "))
+			if err != nil {
+				continue
+			}
+			te := &Ev{u: e.u, st: e.st, spec: true, pos: e.u.bodyPos, bound: map[string]Term{}}
+			if dt := te.evType(tx); dt != nil && !types.Identical(dt, all[k].T) && !types.Identical(dt.Underlying(), all[k].T.Underlying()) {
+				mismatch = true
+			}
+		}
+		if mismatch {
+			continue
 		}
 		ce := &Ev{u: e.u, st: e.st, old: e.st, spec: true, pos: e.pos, bv: e.bv, bound: map[string]Term{}, quiet: true, qvars: e.qvars}
 		if !ce.pos.IsValid() {
